@@ -4,7 +4,7 @@ from .. import env, histgen, session, wire, scripts, refmatch as rm
 from ..runner import Prop, Stage, Result
 from .c08 import gen_chatter
 
-PROFILE = dict(reuse=0.6, weights=dict(newer=4, delete=16, bind=12, message=40, server_event=8, sync=6, enum=16, title=6))
+PROFILE = dict(reuse=0.6, weights=dict(newer=4, delete=16, bind=12, message=40, server_event=8, sync=6, enum=16, title=6, kinds=12))
 PALETTE = ['2;37', '1;96', '36', '1;94', None, '95', '2;35', '93', '1;33', '35', '1;37', '1;92', '1;91', '1;31', '0', '']
 ESC = '\x1b'
 
@@ -38,7 +38,7 @@ class Sessions(Stage):
             k = d.int(0, 5)
             t += 1000
             ts = wire.timestamp(t, dialect)
-            if k == 0: extra.append(['line', gen_chatter(d)])
+            if k == 0: extra.append(['line', gen_chatter(d) if d.chance(0.5) else d.choice(['\x1b[33mwarning:\x1b[0m colour used by the program', '\x1b[1mleft open', 'Gtk \x1b[31;1mCRITICAL\x1b[m x', '\x1b[0m'])])
             elif k == 1: extra.append(['line', '%s%s -> wl_display%s1.error(?!, 2, "x")' % (ts, tag, sep)])          # Unknown argument
             elif k == 2: extra.append(['line', '%s%swl_display%s1.error(wl_surface%s98765, 1, "unresolved")' % (ts, tag, sep, sep)])   # unresolved object
             elif k == 3: extra.append(['line', '%s%swl_nonexistent%s4242.frob(new id [unknown]%s77)' % (ts, tag, sep, sep)])
@@ -56,11 +56,16 @@ class Sessions(Stage):
         res = Result()
         plain = run(case['items'], False, case.get('filter'), case.get('brk'), case.get('supress'))
         col = run(case['items'], True, case.get('filter'), case.get('brk'), case.get('supress'))
+        input_esc = sum(i[1].count(ESC) for i in case['items'] if i[0] == 'line')
         for nm, a, b in (('out', plain.out.buffer, col.out.buffer), ('err', plain.err.buffer, col.err.buffer)):
-            if ESC in a:
+            allowed = input_esc if (nm == 'out' and not case.get('supress')) else 0
+            if a.count(ESC) > allowed:
                 i = a.index(ESC)
-                res.bad('escape-with-colour-disabled:' + nm, 'plain %s stream contains an escape: %r' % (nm, a[max(0, i - 40):i + 40]))
+                res.bad('escape-with-colour-disabled:' + nm, 'plain %s stream contains %d escapes, the input lines passed through carry %d: %r' % (
+                    nm, a.count(ESC), allowed, a[max(0, i - 40):i + 40]))
             sb = strip(b)
+            if input_esc:
+                a = strip(a)          # escapes that came with the input are compared away on both sides
             if sb != a:
                 la, lb = a.split('\n'), sb.split('\n')
                 k = next((i for i, (x, y) in enumerate(zip(la, lb)) if x != y), min(len(la), len(lb)))
